@@ -13,6 +13,8 @@ from sim import core, simfs
 def location_summary(location):
     if location is None:
         return None
+    if not hasattr(location, "file_path"):
+        return {"not-a-location": repr(location)}
     result = {"file": location.file_path, "line": location.line}
     if getattr(location, "_has_cell", False):
         result["cell"] = location.cell
